@@ -7,7 +7,7 @@ import hashlib
 import json
 import os
 
-SHAPES = ["list", "list", "str", "nested", "dict", "dict_empty"]
+SHAPES = ["list", "list", "str", "nested", "dict", "dict_empty", "tuple", "dict_values"]
 STYLES = ["plain", "plain", "plain", "dot", "dotdot", "abs"]
 
 
@@ -160,10 +160,24 @@ def spell(path, style, proj, wd=""):
     return path
 
 
+class _Raw:
+    """A Python expression rendered verbatim (repr() gives the source text)."""
+
+    def __init__(self, text):
+        self.text = text
+
+    def __repr__(self):
+        return self.text
+
+
 def shape(paths, kind):
     """Python literal (as a Python object) for a path list in the given container shape."""
     if kind == "str" and len(paths) == 1:
         return paths[0]
+    if kind == "tuple":
+        return tuple(paths)
+    if kind == "dict_values":
+        return _Raw("{%s}.values()" % ", ".join("%r: %r" % ("v%d" % i, p) for i, p in enumerate(paths)))
     if kind == "nested":
         if not paths:
             return [[]]
